@@ -32,7 +32,9 @@ TOL = 1e-9
 RULE = ("cases from one seeded PRNG: (a) single obstacles of every role (static, dynamic with trajectory / set-based / no "
         "prediction, phantom, environment) x shape (rectangle, circle, polygon, shape group, off-centre rectangle / "
         "polygon) x state class (KS, PM, ST, Custom with and without orientation) x exact / uncertain states, queried at "
-        "every integer time step from t0-2 to t_final+2; (b) scenarios with mixed roles queried with "
+        "every integer time step from t0-2 to t_final+2, half of them after a history of 1-3 public-API operations "
+        "(update_initial_state with / without history bound and update_prediction, initial_state / prediction / "
+        "obstacle_shape setters, translate_rotate), the initial occupancy compared with the model; (b) scenarios with mixed roles queried with "
         "occupancies_at_time_step / obstacle_states_at_time_step / obstacles_by_role_and_type / "
         "obstacles_by_position_intervals for t = 0..t_final+1, every role / type filter; (c) rotate_translate_local of "
         "every shape kind at exact poses, Rectangle.vertices, and the occupancy of the same shape at an exact state of "
@@ -378,7 +380,7 @@ def same_points(exp, got, scale):
             if ok:
                 break
         if not ok:
-            return f"vertices {[tuple(round(x, 6) for x in p) for p in b]} instead of {[tuple(round(x, 6) for x in p) for p in a]}"
+            return f"vertices {[tuple(round(float(x), 6) for x in p) for p in b]} instead of {[tuple(round(float(x), 6) for x in p) for p in a]}"
     return None
 
 
